@@ -206,3 +206,72 @@ def rule_A6(ctx):
             r.finding(hf["path"], "template-unchecked:" + D, "-", "no complete template could be derived for %s" % D)
     r.analysed["abstract_states"] = model.states
     return r
+
+
+# --------------------------------------------------------------------------------------- T9p
+
+
+def rule_T9p(ctx):
+    """Operand order across the builder/runtime boundary: a binary construct is emitted left operand first (so the right
+    operand is popped first and the left second, which is how every two-operand instruction function names them, A5),
+    except the reviewed constructs that are emitted right first and whose runtime side reads its pops the other way."""
+    F = ctx.F
+    r = RuleResult("T9p", "operand-order: binary constructs are emitted left-then-right; the right-first exceptions (pair, apply-to) have a runtime reader that takes its first pop as the left value")
+    sp = spec("templates.json")
+    ms = [x for x in __import__("gcheck.rules_tables", fromlist=["dispatch_matches"]).dispatch_matches(F, DEFN, ["garnish_lang_compiler"], 0.8) if "::build::" in x[0]["path"]]
+    if not ms:
+        r.anchor_missing("handle_parse_node dispatch", "not found")
+        return r
+    hf = ms[0][0]
+    model = BuilderModel(F)
+    right_first = sp.get("right_first", {})
+    n = 0
+    for D, want in sorted(sp["definitions"].items()):
+        if want.get("children") != 2 or want.get("skip") or D in ("ElseJump", "Subexpression", "ExpressionSeparator", "InfixApply"):
+            continue
+        try:
+            outs = model.summary(hf["path"], _entry_args(hf), 0, (("@def", ("vn", D)),))
+        except (ai.StateCapExceeded, rt.Unmodelled) as e:
+            r.finding(hf["path"], "uninterpretable:" + D, "-", "cannot interpret the handler of %s (%s)" % (D, e))
+            continue
+        orders = set()
+        for rv, ts in outs:
+            if is_variant(rv, "Err"):
+                continue
+            inline = tuple(e[2][2] for e in ts[3] if e[0] == "sched" and e[1] == "stack" and isinstance(e[2], tuple) and e[2][:2] == ("s", "child"))
+            if len(inline) == 2:
+                # LIFO work stack: the child pushed last is emitted first
+                orders.add("left-first" if inline == ("right", "left") else ("right-first" if inline == ("left", "right") else "?" + repr(inline)))
+        n += 1
+        r.examine((D,), True, {"definition": D, "emission_order": sorted(orders), "reviewed_right_first": D in right_first})
+        want_order = "right-first" if D in right_first else "left-first"
+        if orders != {want_order}:
+            r.finding(hf["path"], "operand-order:%s:%s" % (D, "/".join(sorted(orders)) or "none"), "-",
+                      "%s emits its operands %s; %s" % (D, "/".join(sorted(orders)) or "in no derivable order", ("it is a reviewed right-first construct (%s)" % right_first[D]) if D in right_first else "binary constructs are emitted left operand first, so that the instruction pops the right operand first and the left second"))
+    r.floor("binary definitions examined", n, 30)
+    # runtime side of the right-first pair constructor: the first pop becomes the pair's left
+    rtm = rt.Model(F, trusted=spec("arity.json")["trusted"])
+    orig = rtm.contract
+
+    def contract(name, args, ts, t, interp, env):
+        if name == "add_pair" and len(args) > 1:
+            d, v, f, ev, np = ts
+            return [(variant("Ok", TOP), (d, v, f, ev + (("add_pair", args[1]),), np)), (variant("Err", TOP), ts)]
+        return orig(name, args, ts, t, interp, env)
+
+    rtm.contract = contract
+    mp = [p for p, f in F.fns.items() if f["crate"] == "garnish_lang_runtime" and f.get("name") == "make_pair" and f.get("vis") == "Public"]
+    if not mp:
+        r.anchor_missing("make_pair", "public runtime fn not found")
+        return r
+    outs = rtm.summary(mp[0], [TOP], 0)
+    shapes = set()
+    for rv, ts in outs:
+        for e in ts[3]:
+            if e[0] == "add_pair":
+                shapes.add(e[1])
+    want_shape = ("t", (("s", "pop", 1), ("s", "pop", 2)))
+    r.examine(("make_pair",), True, {"fn": "make_pair", "pair_built_from": [repr(s) for s in shapes]})
+    if shapes != {want_shape}:
+        r.finding(mp[0], "pair-roles", loc(F.fns[mp[0]]["hir"]), "make_pair builds its pair from %s; Pair is emitted right operand first, so the first pop is the left value and the pair must be (first pop, second pop)" % sorted(map(repr, shapes)))
+    return r
